@@ -593,8 +593,7 @@ Section Transform.
   Lemma inss_shift : forall pat i, inss (S i) pat = map (shift_op 24) (inss i pat).
   Proof.
     unfold inss, interp_ops. induction pat as [|k p IH]; intros i; [reflexivity|].
-    destruct k as [|h|h]; cbn [mean_of map]; rewrite ?IH; try reflexivity.
-    Show.
+    destruct k as [|h|h]; cbn [mean_of map]; rewrite ?IH; reflexivity.
   Qed.
 
   Lemma shifted_lower : forall n ops o, In o (map (shift_op n) ops) -> n <= snd o.
@@ -632,12 +631,12 @@ Section Transform.
       destruct k as [|h|h].
       + exists vals', (s ++ out'). cbn [ops_of]. unfold inss at 1. cbn [mean_of]. fold (inss 1 p).
         rewrite Eidx, Eops, (interp_vals_shift s r _ Hge1).
-        repeat split; [exact Ev | apply Hw24; lia |]. rewrite (Hadv 0) by lia. reflexivity.
+        split; [exact Ev|]. split; [apply Hw24; lia|]. split; [reflexivity|]. rewrite (Hadv 0) by lia. reflexivity.
       + cbn [pattern_ok] in Hok. apply andb_true_iff in Hok. destruct Hok as [Hh _]. apply Nat.ltb_lt in Hh.
         exists vals', (delete_at h s ++ out'). cbn [ops_of]. unfold inss at 1. cbn [mean_of]. fold (inss 1 p).
         change (0 * 24 + h) with h.
         rewrite Eidx, Eops, (interp_vals_shift s r _ Hge1).
-        repeat split; [exact Ev | | ].
+        split; [exact Ev|]. split; [|split; [reflexivity|]].
         * cbn [wfv]. split; [lia|]. split; [rewrite app_length; lia|]. apply Hw24. lia.
         * cbn [slices2]. rewrite (Hadv (h + 1)) by lia. rewrite slice_in_first by lia. rewrite slice_from_0.
           unfold delete_at. rewrite <- app_assoc. rewrite Nat.add_1_r. reflexivity.
@@ -657,9 +656,101 @@ Section Transform.
         fold (inss 1 p). change (0 * 24 + h + 1) with (h + 1).
         rewrite Eidx, Eops. cbn [interp_vals]. rewrite Nat.add_sub, Nat.add_1_r, Ha, Hb.
         rewrite (interp_vals_shift s r _ Hge1), Ev. cbn [bind].
-        repeat split.
+        split; [reflexivity|]. split; [|split; [reflexivity|]].
         * cbn [wfv]. split; [lia|]. split.
           -- exists a, b. cbn [Nat.sub]. rewrite Nat.sub_0_r. auto.
           -- apply Hw24. lia.
         * cbn [slices2]. rewrite (Hadv (S h)) by lia. rewrite slice_in_first by lia. rewrite slice_from_0. reflexivity.
   Qed.
+
+  (* ---------------------------------------------------------------- the theorems about _transform_dst *)
+  Lemma transform_dst_pattern : forall pat pred, pattern_ok pat = true -> length pred = 24 * length pat ->
+    exists out, transform_dst mean2 pred (indices_of pat) = Ok out
+             /\ by_day mean2 pat pred = Some out
+             /\ transform_spec mean2 pred (indices_of pat) = Some out.
+  Proof.
+    intros pat pred Hok Hlen.
+    destruct (pattern_slices pat pred Hok Hlen) as (vals & out & Ev & Hw & Eb & Es).
+    exists out. split; [|split; [exact Eb|]].
+    - unfold transform_dst, indices_of. cbn [fst snd].
+      change (interp_ops (mean_of 0 pat)) with (inss 0 pat). change (remove_ops (interp_of 0 pat)) with (rems 0 pat).
+      rewrite Ev. cbn [bind]. rewrite (sort_ops_pattern pat 0 Hok), slices_slices2, Es. reflexivity.
+    - unfold transform_spec, indices_of. cbn [fst snd].
+      change (interp_ops (mean_of 0 pat)) with (inss 0 pat). change (remove_ops (interp_of 0 pat)) with (rems 0 pat).
+      rewrite (sort_ops_pattern pat 0 Hok).
+      pose proof (loop_slices pred (ops_of 0 pat) [] 0 vals ltac:(lia) Hw) as L.
+      cbn [app length skipn] in L. change (Z.of_nat 0 - Z.of_nat 0)%Z with 0%Z in L. rewrite L, Es. reflexivity.
+  Qed.
+
+  Lemma by_day_length : forall pat pred out, forallb kind_ok pat = true -> length pred = 24 * length pat ->
+    by_day mean2 pat pred = Some out -> length out = total_rows pat.
+  Proof.
+    unfold total_rows. induction pat as [|k p IH]; intros pred out Hk Hlen E.
+    - cbn in E. inversion E. reflexivity.
+    - cbn [forallb] in Hk. apply andb_true_iff in Hk. destruct Hk as [Hk Hp].
+      cbn [by_day] in E. destruct (by_day mean2 p (skipn 24 pred)) as [out'|] eqn:E'; [|discriminate].
+      cbn [length] in Hlen.
+      assert (Hs : length (firstn 24 pred) = 24) by (rewrite firstn_length; lia).
+      assert (IH' : length out' = length (concat (map clock_hours p))).
+      { apply (IH (skipn 24 pred)); [exact Hp | rewrite skipn_length; lia | exact E']. }
+      cbn [map concat]. rewrite app_length, (clock_hours_length k Hk), <- IH'.
+      destruct k as [|h|h]; cbn [rows_expected kind_ok] in *.
+      + inversion E. Show. rewrite app_length, Hs. reflexivity.
+      + apply Nat.ltb_lt in Hk. inversion E. rewrite app_length, delete_at_length by lia. lia.
+      + apply Nat.ltb_lt in Hk.
+        destruct (nth_error pred h); [|discriminate]. destruct (nth_error pred (S h)); [|discriminate].
+        inversion E. rewrite app_length. cbn [length]. rewrite app_length, firstn_length, skipn_length. lia.
+  Qed.
+End Transform.
+
+(* ================================================================== the index *)
+Lemma has_dup_sorted : forall l, StronglySorted Z.lt l -> has_dup l = false.
+Proof.
+  induction l as [|x t IH]; intros H; [reflexivity|]. inversion H as [|? ? Ht Hx]; subst.
+  cbn [has_dup]. rewrite (IH Ht), orb_false_r. apply not_true_is_false. intros E.
+  apply existsb_exists in E. destruct E as (y & Hy & Exy). apply Z.eqb_eq in Exy. subst y.
+  rewrite Forall_forall in Hx. specialize (Hx x Hy). lia.
+Qed.
+
+Lemma NoDup_sorted : forall l, StronglySorted Z.lt l -> NoDup l.
+Proof.
+  induction l as [|x t IH]; intros H; [constructor|]. inversion H as [|? ? Ht Hx]; subst.
+  constructor; [|apply IH; exact Ht]. intros Hin. rewrite Forall_forall in Hx. specialize (Hx x Hin). lia.
+Qed.
+
+Lemma contiguous_index_spec : forall s e, (s <= e)%Z ->
+  let idx := contiguous_index s e in
+  StronglySorted Z.lt idx
+  /\ (forall n a b, nth_error idx n = Some a -> nth_error idx (S n) = Some b -> b = a + 60)%Z
+  /\ nth_error idx 0 = Some s
+  /\ (forall t, In t idx <-> (s <= t <= e /\ (t - s) mod 60 = 0)%Z).
+Proof.
+  intros s e Hse idx. unfold idx, contiguous_index. replace (e <? s)%Z with false by (symmetry; apply Z.ltb_ge; lia).
+  set (n := S (Z.to_nat ((e - s) / 60))).
+  assert (Hn : forall k, k < n <-> (s + 60 * Z.of_nat k <= e)%Z).
+  { intros k. unfold n. pose proof (Z.div_mod (e - s) 60 ltac:(lia)) as D.
+    pose proof (Z.mod_pos_bound (e - s) 60 ltac:(lia)) as B.
+    assert (0 <= (e - s) / 60)%Z by (apply Z.div_pos; lia). split; intros Hk; nia. }
+  split; [|split; [|split]].
+  - clear Hn. generalize 0 as st. induction n as [|m IH]; intros st; cbn [seq map]; constructor; [apply IH|].
+    apply Forall_forall. intros y Hy. apply in_map_iff in Hy. destruct Hy as (k & Hk & Hin). subst y.
+    apply in_seq in Hin. lia.
+  - intros k a b Ha Hb. rewrite nth_error_map in Ha, Hb.
+    destruct (nth_error (seq 0 n) k) as [x|] eqn:Ex; [|discriminate].
+    destruct (nth_error (seq 0 n) (S k)) as [y|] eqn:Ey; [|discriminate].
+    cbn in Ha, Hb. inversion Ha; inversion Hb; subst.
+    assert (Hk : k < n) by (rewrite <- (seq_length n 0); apply nth_error_Some; congruence).
+    assert (Hk' : S k < n) by (rewrite <- (seq_length n 0); apply nth_error_Some; congruence).
+    pose proof (seq_nth n 0 Hk 0) as N1. pose proof (seq_nth n 0 Hk' 0) as N2.
+    apply (nth_error_nth _ _ 0) in Ex. apply (nth_error_nth _ _ 0) in Ey. lia.
+  - unfold n. cbn [seq map nth_error]. f_equal. lia.
+  - intros t. rewrite in_map_iff. split.
+    + intros (k & Hk & Hin). subst t. apply in_seq in Hin. split.
+      * assert (k < n) by lia. apply Hn in H. lia.
+      * replace (s + 60 * Z.of_nat k - s)%Z with (Z.of_nat k * 60)%Z by lia. apply Z.mod_mul. lia.
+    + intros ((H1 & H2) & H3). exists (Z.to_nat ((t - s) / 60)).
+      pose proof (Z.div_mod (t - s) 60 ltac:(lia)) as D. rewrite H3 in D.
+      assert (0 <= (t - s) / 60)%Z by (apply Z.div_pos; lia).
+      split; [rewrite Z2Nat.id by lia; lia|]. apply in_seq. split; [lia|]. cbn [plus]. apply Hn.
+      rewrite Z2Nat.id by lia. lia.
+Qed.
